@@ -89,6 +89,13 @@ func (c *C02) compare(w *World, pre, post *Snapshot, issuedNow map[uint64]bool, 
 			}
 		}
 		changed := before != nil && before.Cmp(sum) != 0
+		if changed && pre != nil {
+			// R3: once sealed the total never changes again, whatever message does it (issuing ones included)
+			if b := pre.BatchByKey(sp.BatchKey); b != nil && !b.Open {
+				w.Violate("R3", "sealed-total-changed", "%s: batch %s is sealed but tradable+retired+cancelled changed from %s to %s", what, b.Denom, RatStr(before), RatStr(sum))
+				return
+			}
+		}
 		if changed && !issuedNow[sp.BatchKey] {
 			if b := pre.BatchByKey(sp.BatchKey); b != nil && !b.Open {
 				w.Violate("R3", "sealed-total-changed", "%s: batch %s is sealed but tradable+retired+cancelled changed from %s to %s", what, b.Denom, RatStr(before), RatStr(sum))
